@@ -542,7 +542,7 @@ func withComments(files []*idl.File) (map[any]string, map[string]string) {
 
 func programs() []*prog {
 	var out []*prog
-	for _, p := range progs.Programs() {
+	for _, p := range append(progs.Programs(), progs.LookupPrograms()...) {
 		out = append(out, &prog{name: p.Name, files: p.Files})
 	}
 	return out
